@@ -11,13 +11,20 @@ struct Entry {
 struct Case {
   std::vector<Entry> entries;
   std::vector<std::string> probes;  // extra keys to look up (absent, prefixes, extensions)
-  template <class A> void io(A &a) { a(entries)(probes); }
+  std::vector<Entry> entries2;      // a second block, written into the storage the first one was read from (may be empty: not done)
+  template <class A> void io(A &a) { a(entries)(probes); if (a.more()) a(entries2); }   // entries2: optional trailing field
   std::string describe() const {
     std::string d = "block=\"";
     for (auto &e : entries) { d += ":" + vf::esc(e.key) + "\\0"; if (e.has_value) d += "=" + vf::esc(e.value) + "\\0"; }
     d += "\" probes=[";
     for (auto &p : probes) d += "\"" + vf::esc(p) + "\" ";
-    return d + "]";
+    d += "]";
+    if (!entries2.empty()) {
+      d += " then in the same storage block=\"";
+      for (auto &e : entries2) { d += ":" + vf::esc(e.key) + "\\0"; if (e.has_value) d += "=" + vf::esc(e.value) + "\\0"; }
+      d += "\"";
+    }
+    return d;
   }
 };
 const char *vf_property() { return "C17"; }
@@ -32,17 +39,21 @@ static std::string gen_key() {
   return k;
 }
 
-Case vf_generate() {
-  Case c;
-  int n = vf::sized<int>(1, 8);
+static void gen_entries(std::vector<Entry> &out, int n) {
   for (int i = 0; i < n; i++) {
     Entry e;
-    if (i > 0 && vf::chance(25)) e.key = c.entries[(size_t)vf::pickn(i)].key;  // repeated key
+    if (i > 0 && vf::chance(25)) e.key = out[(size_t)vf::pickn(i)].key;  // repeated key
     else e.key = gen_key();
     e.has_value = vf::chance(65);
     if (e.has_value) e.value = vf::chance(20) ? "" : vf::strover(AL, 0, 6);
-    c.entries.push_back(e);
+    out.push_back(e);
   }
+}
+Case vf_generate() {
+  Case c;
+  int n = vf::sized<int>(1, 8);
+  gen_entries(c.entries, n);
+  if (vf::chance(40)) gen_entries(c.entries2, vf::sized<int>(1, 8));
   int np = vf::pick<int>(0, 4);
   for (int i = 0; i < np; i++) {
     const std::string &k = c.entries[(size_t)vf::pickn(n)].key;
@@ -56,17 +67,24 @@ Case vf_generate() {
   return c;
 }
 
-std::string vf_run(const Case &c, vf::Ctx &ctx) {
+static std::string block_of(const std::vector<Entry> &entries) {
   std::string block;
-  for (auto &e : c.entries) {
+  for (auto &e : entries) {
     block += ":" + e.key;
     block.push_back('\0');
     if (e.has_value) { block += "=" + e.value; block.push_back('\0'); }
   }
   block.push_back('\0');  // terminator (the implicit NUL of the string literal the macros produce)
-  std::unique_ptr<char[]> hb(new char[block.size()]);
-  memcpy(hb.get(), block.data(), block.size());
-  rtosc::Port port{"p", hb.get(), nullptr, nullptr};
+  return block;
+}
+// storage: where the block is placed (NULL: an exact-size heap block of its own)
+static std::string run_block(const std::vector<Entry> &entries, const std::vector<std::string> &probes, char *storage) {
+  struct { const std::vector<Entry> &entries; const std::vector<std::string> &probes; } c{entries, probes};
+  std::string block = block_of(entries);
+  std::unique_ptr<char[]> hb(storage ? nullptr : new char[block.size()]);
+  char *at = storage ? storage : hb.get();
+  memcpy(at, block.data(), block.size());
+  rtosc::Port port{"p", at, nullptr, nullptr};
   auto meta = port.meta();
 
   // iteration
@@ -104,6 +122,21 @@ std::string vf_run(const Case &c, vf::Ctx &ctx) {
   }
   size_t len = meta.length();
   if (len != block.size()) return "length() = " + std::to_string(len) + " != block byte length " + std::to_string(block.size());
+  return "";
+}
+
+std::string vf_run(const Case &c, vf::Ctx &ctx) {
+  std::string r = run_block(c.entries, c.probes, nullptr);
+  if (!r.empty()) return r;
+  if (!c.entries2.empty()) {
+    // metadata is plain bytes: a second block placed where the first one was read from reads back as itself
+    std::string b1 = block_of(c.entries), b2 = block_of(c.entries2);
+    std::unique_ptr<char[]> st(new char[std::max(b1.size(), b2.size())]);
+    if (!(r = run_block(c.entries, c.probes, st.get())).empty()) return "first block in shared storage: " + r;
+    if (!(r = run_block(c.entries2, c.probes, st.get())).empty()) return "second block in the same storage: " + r;
+    ctx.count("class.second_block_in_same_storage");
+  }
+  std::string block = block_of(c.entries);
 
   bool special = false, repeated = false, valueless = false;
   for (size_t a = 0; a < c.entries.size(); a++) {
